@@ -168,6 +168,16 @@ def known_class(pid, case, impl_obs, model_obs):
     return None
 
 
+def cannot_run(pid, what, detail):
+    """the check could not be carried out (the harness no longer builds against /repo, a runner crashed, ...): the
+    property is not shown to hold on this tree -> a violation without a failing input, the replay names the step"""
+    rp = vlib.write_replay(pid, dict(property=pid, kind="check-could-not-run", detail=what, log_tail=detail[-3000:]))
+    sys.stdout.write(detail[-3000:])
+    print("VIOLATION property=%s replay=%s no-failing-input-found" % (pid, rp))
+    print("  " + what)
+    return 1
+
+
 def run(pid, tier, seed):
     if pid not in PROPS:
         print("unknown property", pid)
@@ -219,13 +229,9 @@ def run(pid, tier, seed):
                          + (" ... (%d differences)" % len(pin_diffs) if len(pin_diffs) > 6 else ""))
     if h_exe is None:
         # /repo no longer builds with the harness: not a property verdict, but the check cannot run
-        sys.stdout.write(hout[-3000:])
-        print("ERROR: harness does not build against /repo")
-        return 2
+        return cannot_run(pid, "the harness (which calls the public API of /repo's crates) does not build against /repo's working tree", hout)
     if m_exe is None:
-        sys.stdout.write(mout[-3000:])
-        print("ERROR: model runner does not build")
-        return 2
+        return cannot_run(pid, "the model runner does not build (a definition of the executable model no longer compiles)", mout)
 
     # --- run implementation + model on corpus and generated cases
     corpus = corpus_cases(pid)
@@ -241,9 +247,7 @@ def run(pid, tier, seed):
             " ".join(vlib.WATCH[pid]), seeds))
     rc, out = sh([h_exe, "gen", pid, gen_tier, str(seed), work], timeout=6000)
     if rc != 0:
-        sys.stdout.write(out[-3000:])
-        print("ERROR: harness failed")
-        return 2
+        return cannot_run(pid, "the harness crashed while generating cases / running the implementation", out)
     cases = read_lines(os.path.join(work, "cases.txt"))
     impl = read_lines(os.path.join(work, "impl.txt"))
     meta = read_lines(os.path.join(work, "meta.txt"))
@@ -257,9 +261,7 @@ def run(pid, tier, seed):
         os.makedirs(w2, exist_ok=True)
         rc, out = sh([h_exe, "gen", xp, gen_tier, str(sd), w2], timeout=6000)
         if rc != 0:
-            sys.stdout.write(out[-3000:])
-            print("ERROR: harness failed (generator %s)" % xp)
-            return 2
+            return cannot_run(pid, "the harness crashed while generating cases (generator %s)" % xp, out)
         cases += read_lines(os.path.join(w2, "cases.txt"))
         impl += read_lines(os.path.join(w2, "impl.txt"))
         meta += read_lines(os.path.join(w2, "meta.txt"))
@@ -277,11 +279,9 @@ def run(pid, tier, seed):
         sh("%s obs < %s > %s" % (h_dev, os.path.join(work, "all_cases.txt"), os.path.join(work, "impl_dev.txt")), timeout=6000)
         impl_dev = read_lines(os.path.join(work, "impl_dev.txt"))
         if len(impl_dev) != len(cases):
-            print("ERROR: line count mismatch cases=%d impl(dev)=%d" % (len(cases), len(impl_dev)))
-            return 2
+            return cannot_run(pid, "line count mismatch cases=%d impl(overflow-checked build)=%d (the harness died)" % (len(cases), len(impl_dev)), "")
     if len(model) != len(cases) or len(impl) != len(cases):
-        print("ERROR: line count mismatch cases=%d impl=%d model=%d" % (len(cases), len(impl), len(model)))
-        return 2
+        return cannot_run(pid, "line count mismatch cases=%d impl=%d model=%d (a runner died)" % (len(cases), len(impl), len(model)), "")
 
     # --- diff
     diffs = []
